@@ -389,7 +389,9 @@ func (w *wWorld) newNode(nid NodeID, pk hotstuff.PrivateKey, scheme string, byz,
 	nd.sync = synchronizer.New(nd.eventLoop, logger, nd.config, nd.auth, w.leaders,
 		synchronizer.NewFixedDuration(time.Hour), synchronizer.NewTimeoutRuler(nd.config, nd.auth),
 		nd.proposer, nd.voter, nd.viewStates, sender)
-	eventloop.Register(nd.eventLoop, func(c hotstuff.CommitEvent) { nd.commits = append(nd.commits, c.Block) })
+	// observed synchronously: a catch-up commit of several hundred blocks adds 3 events per block and the
+	// bounded queue (legitimately, C14) drops the oldest pending ones, which would hide CommitEvents from the observer
+	eventloop.Register(nd.eventLoop, func(c hotstuff.CommitEvent) { nd.commits = append(nd.commits, c.Block) }, eventloop.UnsafeRunInAddEvent())
 	eventloop.Register(nd.eventLoop, func(e hotstuff.ViewChangeEvent) { nd.viewChg = append(nd.viewChg, e) })
 	for i := 0; i < 4000; i++ {
 		nd.cmdCache.Add(&clientpb.Command{ClientID: 1, SequenceNumber: uint64(i + 1), Data: []byte(fmt.Sprint(i))})
